@@ -14,7 +14,8 @@ from .. import ser
 from ..ser_json import cjson
 
 PROP = "C17"
-THEOREMS = ["C17_length_order", "C17_isolation", "C17_ends", "C17_sequential_pull", "C17_refusals",
+THEOREMS = ["C17_length_order", "C17_isolation", "C17_isolation_with_aborts", "C17_ends", "C17_sequential_pull",
+            "C17_refusals",
             "C17_isolation_exec", "C17_tables_stay_sound"]
 AXIOMS_OK = []
 RUN_MODULE = "Run.C17run Exec.ResponseModel Exec.SubscribeModel"
@@ -27,7 +28,8 @@ LEVEL_NOTE = ("Theorems are about the Gallina model Exec/SubscribeModel.v of exe
               "model is tied to /repo by running real subscriptions on a private asyncio loop on every run and "
               "comparing per-event responses with the same selection executed as a plain query on a fresh executor. "
               "Concurrent __anext__ calls on one stream are outside the model.")
-RULE = ("event payloads from a family (dicts carrying their failures, None, 0, '', False, True, [], {}, unrelated dicts, "
+RULE = ("events whose execution aborts with a non-field exception before / after field errors were registered (also "
+        "inside list items) with a consumer that keeps reading; event payloads from a family (dicts carrying their failures, None, 0, '', False, True, [], {}, unrelated dicts, "
         "plain objects) at every position incl. several payload-less events in a row, under root fields that read the "
         "event by key, echo it, or ignore it; event lists of length 0-8 whose per-event failures (non-null violations, resolver errors with/without "
         "extensions, null list items, null root field) are carried by the event payload; 10 selections (aliases, "
@@ -51,6 +53,14 @@ def corpus():
     out.append(_stream(["raw_none", "raw_none", "raw_zero", "raw_none"], G.SEL_TICK, "async", "async", [0, 1, 0, 0], 1))
     out.append(_stream(["raw_zero", "raw_empty_str", "raw_false", "raw_empty_list", "raw_empty_dict", "raw_obj", "raw_none"],
                        G.SEL_ECHO, "agen", "async", [0] * 7, 0))
+    # an event that registers field errors and is then aborted by a non-field exception, followed by
+    # events that complete: their results must not carry the aborted event's errors (seeded C17-c)
+    out.append(_stream(["v_raise_crash_f", "ok"], G.SEL_ERR_THEN_ABORT, "agen", "sync", [0, 0], 0))
+    out.append(_stream(["ok", "many_crash_f", "v_raise", "ok"], G.SEL_ERR_THEN_ABORT, "sync", "sync", [0, 1, 0, 0], 1))
+    out.append(_stream(["v_raise_crash_n", "v_raise_crash_n", "ok"], G.SEL_ERR_THEN_ABORT, "async", "async", [0, 0, 1], 0))
+    out.append(_stream(["lo_null_then_crash", "ok", "lo_item"], G.SEL_ABORT_IN_LIST, "agen", "async", [0, 0, 0], 0))
+    out.append(_stream(["crash_f", "v_raise"], G.SEL_ABORT_FIRST, "sync", "sync", [0, 0], 0))
+    out.append(_stream(["l_crash"], G.SEL_ABORT_IN_LIST, "async", "sync", [0], 0))
     for r in G.REFUSALS:
         out.append(_refusal(r))
     return out
@@ -96,6 +106,25 @@ def generate(rng, tier):
         n = rng.randint(1, 8)
         variants = [rng.choice(G.RAW_NAMES + G.FALSY_RAW + ["ok", "v_raise"]) for _ in range(n)]
         cases.append(_stream(variants, rng.choice(sels + [0, 3, 4]), sources[i % 3], "async" if i % 2 else "sync",
+                             [rng.choice([0, 0, 1, 2]) for _ in range(n)], rng.choice([0, 1])))
+    # aborting events: every aborting behaviour first / in the middle / last / twice in a row, under the
+    # three orders (errors before the abort, abort first, inside list items), then events that complete
+    ab_sels = [G.SEL_ERR_THEN_ABORT, G.SEL_ABORT_FIRST, G.SEL_ABORT_IN_LIST, 2]
+    ab_shapes = [lambda a, o: [a, o], lambda a, o: [o, a, o], lambda a, o: [a, a, o], lambda a, o: [o, a],
+                 lambda a, o: [a, o, a, o, o]]
+    j = 0
+    for ab in G.ABORTING_NAMES:
+        for si, shape in enumerate(ab_shapes):
+            for sel in (ab_sels if not quick else [ab_sels[(j + si) % 4], ab_sels[(j + si + 1) % 4]]):
+                other = ["ok", "v_raise", "many", "n_null"][j % 4]
+                variants = shape(ab, other)
+                cases.append(_stream(variants, sel, sources[j % 3], "async" if (j // 3) % 2 else "sync",
+                                     [(j + i) % 2 for i in range(len(variants))], j % 2))
+                j += 1
+    for i in range(30 if quick else 400):
+        n = rng.randint(2, 8)
+        variants = [rng.choice(G.ABORTING_NAMES + ["ok", "ok", "v_raise", "many", "raw_none"]) for _ in range(n)]
+        cases.append(_stream(variants, rng.choice(ab_sels + [1, 3]), sources[i % 3], "async" if i % 2 else "sync",
                              [rng.choice([0, 0, 1, 2]) for _ in range(n)], rng.choice([0, 1])))
     # exhaustive failure patterns (fail / ok per event) up to 4 (quick) / 6 (thorough) events
     maxn = 4 if quick else 6
@@ -199,6 +228,13 @@ async def _run_stream(case):
         except StopAsyncIteration:
             ended = True
             break
+        except Exception as e:  # noqa  the event's execution was aborted: keep reading
+            log.append(["emitted", len(observed)])
+            observed.append({"raised": type(e).__name__})
+            results.append(None)
+            if len(observed) > len(events) + 2:
+                break
+            continue
         log.append(["emitted", len(observed)])
         observed.append(_roundtrip(r.response()))
         results.append(r)
@@ -210,10 +246,14 @@ async def _run_stream(case):
     odoc = parse(_oracle_text(text))
     fresh = []
     for ev in events:
-        res = await execute(schema, odoc, initial_value=ev, runtime=AsyncIORuntime())
-        fresh.append(_roundtrip(res.response()))
+        try:
+            res = await execute(schema, odoc, initial_value=ev, runtime=AsyncIORuntime())
+        except Exception as e:  # noqa
+            fresh.append({"raised": type(e).__name__})
+        else:
+            fresh.append(_roundtrip(res.response()))
     # results already handed to the consumer must not change when later events are processed
-    late = [_roundtrip(r.response()) for r in results]
+    late = [o if r is None else _roundtrip(r.response()) for r, o in zip(results, observed)]
     return {"observed": observed, "observed_late": late, "fresh": fresh, "trace": log, "ended": ended,
             "consumed": counter["consumed"], "called": counter["called"], "requests": counter["requests"]}
 
@@ -268,7 +308,13 @@ def run_impl(case):
 
 # ---------------------------------------------------------------- serialisation
 def _split(resp):
-    return "(%s, %s)" % (cjson(resp.get("data")), ser.clist(resp.get("errors", []), cjson))
+    if "raised" in resp:
+        return "(None, [])"
+    return "(Some %s, %s)" % (cjson(resp.get("data")), ser.clist(resp.get("errors", []), cjson))
+
+
+def _obs(resp):
+    return "None" if "raised" in resp else "(Some %s)" % cjson(resp)
 
 
 def _trace(log):
@@ -290,7 +336,7 @@ _CLS = {"ExecutionError": "OExecutionError", "RuntimeError": "ORuntimeError",
 def to_coq(case, obs):
     if case["kind"] == "stream":
         return "(CStream %s %s %s %s %d)" % (
-            ser.clist(obs["fresh"], _split), ser.clist(obs["observed"], cjson), _trace(obs["trace"]),
+            ser.clist(obs["fresh"], _split), ser.clist(obs["observed"], _obs), _trace(obs["trace"]),
             ser.cbool(obs["ended"]), obs["consumed"])
     f = case["facts"]
     q = "(SubRequest %s %s %s %s (N.to_nat %d) %s %s)" % (
